@@ -11,10 +11,26 @@ import shutil, glob
 LOCK = "/verif/.build/REPO_PATCHED.lock"
 if os.path.exists(LOCK):
     print("refusing: another seedtest holds", LOCK); sys.exit(2)
-busy = "\n".join(l for l in sh("pgrep -af 'scripts/check.py'").stdout.split("\n")
-                 if len(l.split()) > 2 and l.split()[1].endswith("python3") and "check.py" in l.split()[2])
-if busy and not os.environ.get("SEEDTEST_FORCE"):
-    print("refusing: a check is running against /repo (it would see the patched tree):\n" + busy); sys.exit(2)
+def busy_checks():
+    """check.py processes that read /repo itself (those pointed at a scratch copy through VERIF_REPO do not count)"""
+    out = []
+    for l in sh("pgrep -af 'scripts/check.py'").stdout.split("\n"):
+        f = l.split()
+        if len(f) > 2 and f[1].endswith("python3") and "check.py" in f[2]:
+            try:
+                env = open("/proc/%s/environ" % f[0], "rb").read().split(b"\0")
+            except Exception:
+                continue
+            vr = [e for e in env if e.startswith(b"VERIF_REPO=")]
+            if vr and vr[0] != b"VERIF_REPO=/repo":
+                continue
+            out.append(l)
+    return out
+t_wait = time.time()
+while busy_checks() and not os.environ.get("SEEDTEST_FORCE"):
+    if time.time() - t_wait > 900:
+        print("refusing: a check is running against /repo (it would see the patched tree):\n" + "\n".join(busy_checks())); sys.exit(2)
+    time.sleep(5)
 # evidence files are rewritten by every check: keep the unchanged-tree evidence aside while /repo is patched
 EVB = "/verif/.build/evidence_backup"
 shutil.rmtree(EVB, ignore_errors=True); os.makedirs(EVB)
